@@ -21,14 +21,14 @@ import sys
 import numpy as np
 import scipy.sparse
 
-from .common import plist, frac, PY, VERIF, REPO
+from .common import plist, frac, PY, VERIF, REPO, InfraError
 from .c05 import fmt_space, fmt_mat_in, parse_mat, mat_diff, EPS
 
 THEOREMS = [
     'Pyiga.Props.C03.scatter_unique', 'Pyiga.Props.C03.hb_entry', 'Pyiga.Props.C03.hb_entry_same_level',
-    'Pyiga.Props.C03.thb_congruence', 'Pyiga.Props.C03.thb_functional', 'Pyiga.Props.C03.sym_flag',
+    'Pyiga.Props.C03.thb_congruence', 'Pyiga.Props.C03.sym_flag', 'Pyiga.Props.C03.level_blocks_spec',
 ]
-MODULES = ['Pyiga.Model.TransferKnots', 'Pyiga.Model.Transfer', 'Pyiga.Model.HAssemble', 'Pyiga.Proofs.HAssemble', 'Pyiga.Props.C03']
+MODULES = ['Pyiga.Model.TransferKnots', 'Pyiga.Model.Transfer', 'Pyiga.Model.HAssemble', 'Pyiga.Proofs.Transfer', 'Pyiga.Proofs.HAssemble', 'Pyiga.Props.C03']
 
 FORMS = {
     'mass': ('u*v*dx', True),
@@ -172,7 +172,10 @@ def gen_space(rng, dim, p, n0, nref, disparity, truncate, bdspecs, maxlevels):
 
 
 def run(ctx):
-    os.environ['XDG_CACHE_HOME'] = ctx.xdg_cache()
+    # private module cache of this check (sub-directory: other checks compile `u*v*dx` too, and the
+    # library's cache is not safe against concurrent builds of the same module, cf. C20)
+    os.environ['XDG_CACHE_HOME'] = os.path.join(ctx.xdg_cache(), 'c03')
+    os.makedirs(os.environ['XDG_CACHE_HOME'], exist_ok=True)
     ctx.build_repo()
     quick = ctx.tier == 'quick'
     forms = QUICK_FORMS if quick else ALL_FORMS
@@ -249,6 +252,8 @@ def run(ctx):
                     b_impl = np.asarray(hd.assemble_functional(vf))
                     b_lv = [full_level_vector(hs, vf, args, k) for k in range(L)]
                 except Exception as ex:
+                    if type(ex).__name__ in ('CompileError', 'LinkError', 'DistutilsExecError'):
+                        raise InfraError('compiling the assembler for `%s` failed: %s' % (name, str(ex)[:300]))
                     b_impl = 'err-' + type(ex).__name__; b_lv = None
                 if b_lv is None:
                     req.append('hfun bad'); exp.append(b_impl); meta.append(('fun', desc, name, hs, None, affine))
@@ -270,6 +275,8 @@ def run(ctx):
                         ta[k] = rows
                     e = (ta, A_impl)
                 except Exception as ex:
+                    if type(ex).__name__ in ('CompileError', 'LinkError', 'DistutilsExecError'):
+                        raise InfraError('compiling the assembler for `%s` failed: %s' % (name, str(ex)[:300]))
                     e = 'err-%s: %s' % (type(ex).__name__, str(ex)[:200])
                 if A_lv is None:
                     req.append('hasm bad'); exp.append(e); meta.append(('mat', desc, name, hs, None, affine, sym))
